@@ -1187,8 +1187,14 @@ func streamCache(o opts, focus string) {
 			dom = n + 10
 			sawEv, sawUpd = true, true
 		}
+		// every fourth trace uses the integer keys whose hashes are the table's sentinel values: 0 and 2 (and 1 and 3)
+		// share a normalised tag, and with one or two shards they share a shard
+		sentinel := t%4 == 2 && directed == 0
 		for i := 0; i < nops; i++ {
 			k := rng.Intn(dom)
+			if sentinel && k >= 1 && k <= 3 {
+				k = int(invAvalanche([]uint64{0, 2, 1, 3}[k]))
+			}
 			switch x := rng.Intn(100); {
 			case x < 34:
 				_, was := r.latest[k]
